@@ -447,3 +447,13 @@ Proof.
     destruct vs as [|v vs]; [rewrite repeat_length in Len; vm_compute in Len; discriminate Len|].
     inversion Ev; subst. cbn [fold_left]. pose proof (fold_min_le vs (N.min 255 0)). lia.
 Qed.
+
+(* whatever the shape of the sketch, an estimate never exceeds the starting value 255 *)
+Lemma rows_est_le_acc mask h : forall rows seeds acc e, rows_est mask h rows seeds acc = Some e -> e <= acc.
+Proof.
+  intros rows seeds acc e. rewrite rows_est_vals. destruct (rows_vals mask h rows seeds) as [vs|]; [|discriminate].
+  cbn [option_map]. intros H; inversion H; subst. apply fold_min_le.
+Qed.
+
+Lemma sk_est_le_255 s h e : sk_est s h = Some e -> e <= 255.
+Proof. unfold sk_est. apply rows_est_le_acc. Qed.
